@@ -1749,8 +1749,12 @@ class rx:
             'kwargs': {},
             'reverse': False
         }
-        self._method = None
-        return self._clone(operation)
+        # The attribute access is recorded on top of a copy of this
+        # expression without the pending attribute; the expression itself
+        # is left untouched so that it can be used (and read) again.
+        base = self._clone(copy=True)
+        base._method = None
+        return base._clone(operation)
 
     def __getattribute__(self, name):
         self_dict = super().__getattribute__('__dict__')
